@@ -490,7 +490,8 @@ CLAIM = {
             "signature into the monomorphic kernel bodies; every integer operation on SQL values there is classified as checked-with-error, "
             "raw, or checked-then-discarded. This decides, for all inputs at once, whether an overflow CAN wrap or panic (failure-mode "
             "clause); whether results are numerically exact is a value question and is not claimed. Plus the operand-cast guard of decimal + - and comparisons (shared engine with C18-ELIDE): a path that skips bringing an operand to the common decimal type has established equality of precision and scale, through helpers and ||/&& chains. Plus: no lossy integer narrowing (`as`, AsPrimitive::as_) of SQL values in those kernels unless the narrowed value was range-compared first; and the same classification over the bodies of the built-in table functions (generate_series)."
-            " Plus CMPBIND: the same raw-arithmetic discipline over the comparison operators' bind functions.",
+            " Plus CMPBIND: the same raw-arithmetic discipline over the comparison operators' bind functions."
+            " Plus INTSIG: abs, unary minus, ceil, floor, round, trunc have exact Int64/Int128/Decimal64/Decimal128 signatures (no detour through Float64).",
     "note": "trusted: rustc MIR + trait resolution under the fully monomorphic typing env; kernel = code under glaredb_core::functions:: in the "
             "arithmetic modules; usize/isize index arithmetic is not SQL-value arithmetic and is excluded",
     "technique": "static analysis: registry-driven instantiation walk over MIR + operator classification (rustc_private driver)",
